@@ -19,7 +19,7 @@ type c05 struct{}
 func (c05) ID() string    { return "C05" }
 func (c05) Level() string { return "exploration" }
 func (c05) Rule() string {
-	return "target service decomposed into chains of 1..3 bases (4 thorough) x every assignment of link kinds {same file, other file same directory, other file in a sub-directory, other file in a sibling directory} x naming {distinct names, base named like the extending service where files differ} x file references {relative; all absolute} x own attributes of the most derived service {plain; tagged !override / !reset} x placement of each of 7 attributes (scalar, KEY=VALUE, plain sequence, wholesale command, build context, env_file, bind volume) on every non-empty subset of chain positions (one attribute varied at a time, and all together); every declaration-order permutation of same-file services and 8 uniform map-iteration rotations; sibling services sharing a base; all cyclic chains of length 1..4 over same/other file; missing base service and missing file. Oracle: flattening reference (most derived wins, keys merge, sequences append base-first, paths anchored on the directory of the file that wrote them), no extends left, errors for cycles/missing. distinct = distinct (chain shape, placement) pairs"
+	return "target service decomposed into chains of 1..3 bases (4 thorough) x every assignment of link kinds {same file, other file same directory, other file in a sub-directory, other file in a sibling directory, back to the main file} x naming {distinct names, base named like the extending service where files differ} x file references {relative; all absolute} x own attributes of the most derived service {plain; tagged !override / !reset} x placement of each of 7 attributes (scalar, KEY=VALUE, plain sequence, wholesale command, build context, env_file, bind volume) on every non-empty subset of chain positions (one attribute varied at a time, and all together); every declaration-order permutation of same-file services and 8 uniform map-iteration rotations; sibling services sharing a base; all cyclic chains of length 1..4 over same/other file; missing base service and missing file. Oracle: flattening reference (most derived wins, keys merge, sequences append base-first, paths anchored on the directory of the file that wrote them), no extends left, errors for cycles/missing. distinct = distinct (chain shape, placement) pairs"
 }
 func (c05) Assumptions() []string {
 	return []string{"reference flattening in props/c05.go follows the override rules of the statement for the 7 attribute kinds used"}
@@ -28,7 +28,7 @@ func (c05) Assumptions() []string {
 var c05attrs = []string{"hostname", "environment", "security_opt", "command", "build.context", "env_file", "volumes", "logging.options"}
 
 type c05chain struct {
-	links []int // kind of link i: position i extends position i+1; 0 same file, 1 other file same dir, 2 sub-dir, 3 sibling dir
+	links []int // kind of link i: position i extends position i+1; 0 same file, 1 other file same dir, 2 sub-dir, 3 sibling dir, 4 back to the main file
 	same  bool  // base named like the extending service where the link crosses files
 	abs   bool  // cross-file references written as absolute paths (<ROOT> is replaced once the scenario directory exists)
 	tags  bool  // the most derived service tags two of its own attributes: security_opt !override, hostname !reset
@@ -50,12 +50,15 @@ func (ch c05chain) layout() (files []string, names []string) {
 			files[i+1] = filepath.Join(dir, fmt.Sprintf("f%d.yaml", i+1))
 		case 2:
 			files[i+1] = filepath.Join(dir, fmt.Sprintf("sub%d", i+1), fmt.Sprintf("f%d.yaml", i+1))
+		case 4:
+			// back to the main file (the chain left it earlier): legal, not a cycle, the names differ
+			files[i+1] = files[0]
 		case 3:
 			// a sibling directory whose name starts with this directory's name (proj -> proj-lib1): a sibling, not a child
 			files[i+1] = filepath.Join(filepath.Dir(dir), fmt.Sprintf("%s-lib%d", filepath.Base(dir), i+1), fmt.Sprintf("f%d.yaml", i+1))
 		}
 		names[i+1] = fmt.Sprintf("s%d", i+1)
-		if ch.same && ch.links[i] != 0 {
+		if ch.same && ch.links[i] != 0 && ch.links[i] != 4 {
 			names[i+1] = names[i]
 		}
 	}
@@ -298,18 +301,32 @@ func (c05) Run(c *core.Ctx) {
 	for L := 1; L <= maxL; L++ {
 		nk := 1
 		for i := 0; i < L; i++ {
-			nk *= 4
+			nk *= 5
 		}
 		for code := 0; code < nk; code++ {
 			links := make([]int, L)
 			x := code
 			crosses := false
+			backOK := true
+			away := false // is position i in another file than the main one?
 			for i := range links {
-				links[i] = x % 4
-				x /= 4
+				links[i] = x % 5
+				x /= 5
+				if links[i] == 4 {
+					// back to the main file: only meaningful from another file
+					if !away {
+						backOK = false
+					}
+					away = false
+				} else if links[i] != 0 {
+					away = true
+				}
 				if links[i] != 0 {
 					crosses = true
 				}
+			}
+			if !backOK {
+				continue
 			}
 			for _, same := range []bool{false, true} {
 				if same && !crosses {
